@@ -99,6 +99,7 @@ fn single_leaf_workload(program: Vec<u8>, muts: Vec<(Key, Vec<Word>)>) -> Worklo
         beacons: false,
         stale_prelude: false,
         prefix_prelude: false,
+        alias_pred_hash: false,
     }
 }
 
